@@ -251,6 +251,34 @@ func (r *run) generate() {
 		}
 	}
 
+	// ---- H. IsRm x extended-provider shapes, as a full cross product: a signed advertisement
+	// (removal or not; without ExtendedProvider, or with an empty one) gets an entry list
+	// attached afterwards -- unsigned, genuinely signed, one foreign-sealed, main left out --
+	// of 1..3 entries with the main provider at every position or absent, with and without
+	// override, also through both codecs
+	for t := 0; t < nTypes; t++ {
+		signer := typeBase(t)
+		for _, provider := range []int{signer, (signer + 3) % len(pool.Ids)} {
+			for _, rm := range []bool{true, false} {
+				for _, emptyExt := range []bool{false, true} {
+					for n := 1; n <= 3; n++ {
+						for mainPos := -1; mainPos < n; mainPos++ {
+							for variant := 0; variant < 4; variant++ {
+								sc := baseScenario(seed(), signer, provider)
+								sc.Rm, sc.Ext, sc.Prev = rm, emptyExt, (n+variant)%2 == 0
+								tmp := withEps(baseScenario(1, signer, provider), n, mainPos, false)
+								sc.Attach, sc.AttachOv = tmp.Eps, (n+mainPos+variant)%2 == 0
+								sc.Codec = []string{"", "dag-json", "dag-cbor"}[(n+mainPos+variant+t)%3]
+								sc.Mut = mutation{Kind: "ep-attach", Ep: -1, Index: variant + 4*(n+t)}
+								r.emit(sc)
+							}
+						}
+					}
+				}
+			}
+		}
+	}
+
 	// ---- G. peer-ID SPELLINGS: the signature covers the string, whichever way the ID is written
 	for t := 0; t < nTypes; t++ {
 		signer := typeBase(t)
@@ -332,7 +360,7 @@ func firstOtherOfType(a, b, c, t int) int {
 	return 0
 }
 
-var allMuts = []string{"", "", "", "respell", "ep-respell", "prev", "entries", "provider", "addr", "metadata", "rm", "ctx", "override", "ep-id", "ep-addr", "ep-md",
+var allMuts = []string{"", "", "", "ep-attach", "ep-attach", "respell", "ep-respell", "prev", "entries", "provider", "addr", "metadata", "rm", "ctx", "override", "ep-id", "ep-addr", "ep-md",
 	"ep-drop", "ep-dup", "ep-swap-sigs", "ext-remove", "shift", "env-key", "env-payload", "env-sig", "env-type", "env-byte",
 	"sig-empty", "sig-garbage", "sig-truncate", "sig-append", "resign-other", "ep-sig-as-ad-sig"}
 
@@ -373,6 +401,14 @@ func (r *run) randomScenario(rng *vlib.Rand) *scenario {
 		sc.Mut = mutation{Kind: allMuts[rng.Intn(len(allMuts))], Ep: -1, Index: rng.Intn(400), Mask: 1 << rng.Intn(8)}
 		if len(sc.Eps) > 0 && rng.Intn(2) == 0 {
 			sc.Mut.Ep = rng.Intn(len(sc.Eps))
+		}
+		if sc.Mut.Kind == "ep-attach" {
+			// attach to an advertisement that has no entries of its own: removal or not
+			sc.Eps, sc.Ext, sc.Rm = nil, rng.Bool(), rng.Bool()
+			sc.Mut.Ep = -1
+			n := 1 + rng.Intn(3)
+			tmp := withEps(baseScenario(1, signer, provider), n, rng.Intn(n+1)-1, false)
+			sc.Attach, sc.AttachOv = tmp.Eps, rng.Bool()
 		}
 		switch sc.Mut.Kind {
 		case "ep-id", "ep-addr", "ep-md", "ep-drop", "ep-dup", "ep-swap-sigs", "ep-sig-as-ad-sig", "ep-respell":
